@@ -946,7 +946,7 @@ func main() {
 	if exhaustive {
 		rule += "Thorough tier, six disjoint blocks, each enumerated completely; in blocks A-E the body axis is the hand-written bodies: A = the full product of the six request axes over the hand-written header sets, on the plain recorder with the plain delivery; B = generated header sets x cfg x registered method x every Content-Type x every body, for POST, on the plain recorder; D = every other ResponseWriter x cfg x registered method x every Content-Type x hand-written header set x every body, for POST (i.e. writer x method kind x every handler outcome the bodies produce: 0, 1, 2, 3 messages then OK, 0, 1, 2 messages then an error, undecodable request streams, and the 415/400 refusals); E = every other body delivery x cfg x registered method x every Content-Type x hand-written header set x every body, for POST, on the plain recorder (i.e. delivery x method kind x codec x every valid, undecodable, truncated and empty body); C = the remaining two-axis sweeps around the plain valid request of each method kind, for every cfg: generated header set x path, generated header set x HTTP method, writer x path (404), writer x HTTP method (405), writer x generated header set (handler outcomes of every shape, several -bin values), delivery x path, delivery x HTTP method, delivery x generated header set, delivery x writer; F = generated body x cfg x registered method x every Content-Type x every body delivery, for POST without other headers on the plain recorder (i.e. announced size x position in the stream x tail x method kind x codec x delivery x configuration), except that the bodies for which the reference says the server has to buffer more than 64 KiB on the strength of the preface alone (64 KiB < v <= L) are crossed with cfg x registered method only. grammar_size is the size of A+B+C+D+E+F. "
 	} else {
-		rule += fmt.Sprintf("Quick tier: NOT the thorough tier's grammar (%d requests) but, around the plain valid request of each of the 4 method kinds, every single-axis sweep and every two-axis sweep over the eight axes, around cfg srv, and the sweeps that involve the writer axis once more around cfg mux, where the decorating-Mux placements exist (%d requests; pairwise-complete: every pair of values of any two axes, generated header sets and writers included, occurs in some request: writer x body gives writer x method kind x handler outcome {0, 1, 2, 3 messages then OK; 0, 1, 2 messages then an error; undecodable request}, writer x HTTP method / Content-Type / header set / path give the 405 / 415 / 400 / 404 paths; delivery x body and delivery x Content-Type give delivery x method kind x codec x {valid, undecodable, truncated, empty} body). In these sweeps the body axis is the hand-written bodies; every generated body (announced frame sizes) is tried against the plain valid request of each of the 4 method kinds and swept pairwise with cfg, Content-Type and body delivery (not with path, HTTP method, header set and ResponseWriter: the first three are refusals that never read the body, the reply to an undecodable stream behind every writer is covered by the hand-written bodies), the bodies that make the server buffer more than 64 KiB only against the plain valid request of each kind. ", grammarSize, enumerated)
+		rule += fmt.Sprintf("Quick tier: NOT the thorough tier's grammar (%d requests) but, around the plain valid request of each of the 4 method kinds, every single-axis sweep and every two-axis sweep over the eight axes, around cfg srv, and the sweeps that involve the writer axis once more around cfg mux, where the decorating-Mux placements exist (%d requests; pairwise-complete: every pair of values of any two axes, generated header sets and writers included, occurs in some request: writer x body gives writer x method kind x handler outcome {0, 1, 2, 3 messages then OK; 0, 1, 2 messages then an error; undecodable request}, writer x HTTP method / Content-Type / header set / path give the 405 / 415 / 400 / 404 paths; delivery x body and delivery x Content-Type give delivery x method kind x codec x {valid, undecodable, truncated, empty} body). In these sweeps the body axis is the hand-written bodies; every generated body (announced frame sizes) is tried against the plain valid request of each of the 4 method kinds and swept pairwise with cfg, Content-Type and body delivery (not with path, HTTP method, header set and ResponseWriter: an unregistered path and another HTTP method are refused without reading the body, the header sets act before the request stream is read (gatekeeping) or after it (handler outcome), and the reply to an undecodable stream with every header set and behind every writer is covered by the hand-written bodies), the bodies that make the server buffer more than 64 KiB only against the plain valid request of each kind. ", grammarSize, enumerated)
 	}
 	rule += "A request is non-trivial when it addresses a registered method, i.e. reaches the gatekeeping code of handleMethod/handleStream (requests to unregistered paths only exercise the mux) and, for a case with a ResponseWriter wrapper, library code made at least one call on the wrapper; distinct by (cfg,path,method,content type,header set,body,writer,delivery). " +
 		fmt.Sprintf("Plus the JSON==protobuf comparison: message{%d} x JSON rendering{%d} x JSON content type{%d} x header set{%d} x cfg{%d} x body delivery{%d} (both requests of a pair delivered the same way), each", len(eqMsgs), len(eqRenderings), len(eqCTs), len(eqHdrs), len(cfgs), len(delivs)) +
